@@ -2,7 +2,7 @@
 import numpy as np
 
 from symx import core
-from .catalogue_common import (ASSUMPTIONS, NAMES, TEMPLATES, Env, engine_refusal, flatten, handler_coverage,  # noqa: F401
+from .catalogue_common import (ASSUMPTIONS, GROUP_DIMS, NAMES, TEMPLATES, UNITS, Env, engine_refusal, flatten, handler_coverage,  # noqa: F401
                                install_numpy_patches, is_unyt, leaf_elements, leaf_shape, leaves_equal, make_registry, namespaces,
                                numeric_obs, select)
 from .common import And, Case, call, check_names
@@ -15,36 +15,70 @@ MANIFEST = dict(
           "path; z3 proves element-wise equality of every returned array, every out= buffer and every argument after the call, "
           "for ALL real element values (unsat of pc & not P per path). Kernels that refuse the symbolic payload (LAPACK, FFT, "
           "interp, histogram*) are uninterpreted functions named by the NumPy routine and its bound arguments, so the obligation "
-          "there is that the handler forwards to the same routine with the same arguments. Bounded: catalogue of templates, "
-          "shapes <= (2,3)/(2,2,2); dtype kinds, complex input, rounding are outside."),
+          "there is that the handler forwards to the same routine with the same arguments. The catalogue sweeps operand rank "
+          "(0-d / 1-d / 2-d pairs) x operand kind (quantity, bare array, bare number) for the two-operand handlers and the sign of "
+          "`decimals` x call form for the rounding family. Payload type: an integer family repeats the differential with "
+          "integer-valued symbols whose declared dtype is what unyt's own code reads (A12), z3 deciding for ALL integers; a typed "
+          "family runs every template on real int / uint / float32 / complex buffers against bare NumPy on identical buffers "
+          "(shape, dtype kind, bit-identical values, out= buffers) - that family is ENUMERATION of a dtype x value table, not a "
+          "solver verdict. Bounded: catalogue of templates, shapes <= (2,3)/(2,2,2); IEEE rounding, integer wrap-around and "
+          "complex payloads beyond the typed table are outside."),
     design="DESIGN.md section 4 C06",
-    technique="differential symbolic execution of the real Python code over z3 real terms (quantity call vs stripped call); SMT obligations per path; uninterpreted-function model of opaque kernels; counterexample replay")
+    technique="differential symbolic execution of the real Python code over z3 real / integer-valued terms (quantity call vs stripped call); SMT obligations per path; uninterpreted-function model of opaque kernels; concrete typed-buffer differential over an enumerated dtype x value table; counterexample replay")
 EXPLANATION = (
     "For each template F(*args) the real unyt_array.__array_function__ / handler / ndarray-method code is executed on "
     "quantities whose elements are z3 reals, then the same F on the stripped object arrays of the same symbols. Per path z3 "
     "decides pc & not(P) with P = same result structure, same shapes, element-wise equal values of every returned array, and "
     "element-wise equal final contents of every argument and out= buffer. A unyt-side exception is allowed by the property. "
     "Tier 2: LAPACK/FFT/interp/histogram kernels are uninterpreted functions K_F[bound non-payload arguments](payload): equality "
-    "of the K_F applications means the handler forwards to the same routine with the same arguments.")
+    "of the K_F applications means the handler forwards to the same routine with the same arguments. "
+    "C06/rank/*: the two-operand handlers (dot, vdot, inner, outer, linalg.outer, kron, tensordot, einsum, convolve, correlate, "
+    "ndarray.dot; the joining family; isclose/allclose/array_equal/array_equiv/where/isin/set functions/searchsorted; copyto/"
+    "fill_diagonal/putmask/place/put) over all pairs of operand ranks 0-d/1-d/2-d and operand kinds quantity / bare ndarray / bare "
+    "python number: a 0-d operand takes NumPy's scalar routes, which differ per function, and NumPy refusing the stripped call "
+    "while the call on quantities returns is a violation. C06/round/*: decimals in {-2,-1,0,2} x positional/keyword/out=/0-d forms "
+    "of np.around, np.round, ndarray.round. "
+    "C06/int/<dtype>/*: the same obligations with INTEGER-valued symbols (unsigned: >= 0); the symbolic payload is an object array "
+    "carrying a declared integer dtype that unyt's own Python code sees when it asks `.dtype` (A12), so a handler branch on the "
+    "dtype kind is executed and its result compared by z3 for all integers; models are replayed on real int64/uint64 buffers. "
+    "Paths on which unyt's integer branch needs a typed buffer (integer out= promotion in __array_ufunc__) are cut and counted. "
+    "C06/typed/*: every template on real typed buffers (a fixed table of values with rounding ties, negatives, zero, values beyond "
+    "8/16 bit; quarters for float/complex) through the real handler and through bare NumPy: same structure, shape, dtype kind, "
+    "bit-identical values, same final out= buffers / arguments, out= buffers keep their dtype. No symbol is involved there: every "
+    "obligation of that family is a ground check over the enumerated table (replayed on plain unyt like any counterexample).")
 BOUNDS = {
-    "quick": "the `quick` subset of the template catalogue (one or two forms per function), shapes (), (2,), (3,), (2,2), (2,3)",
+    "quick": "the `quick` subset of the template catalogue (one or two forms per function), shapes (), (2,), (3,), (2,2), (2,3); rank sweep: "
+             "rank pairs with a 0-d operand x all operand kinds; rounding: 11 of 32 decimals x form templates. Integer family: every Tier-1 "
+             "template of this subset except np.unwrap, declared int64, all integers (solver). Typed family (ENUMERATION): every template x {int64, uint16, float32, "
+             "complex128} x 2 value sets of a 28-entry table",
     "thorough": "the full template catalogue: positional / keyword / out= variants, equal and ragged extents, plus a shape x axis sweep of 25 "
-                "single-operand functions over (), (1,), (0,), (2,3), (3,2), (1,2), (2,2,2); sorting-type functions with axis=None only up to 3 elements",
+                "single-operand functions over (), (1,), (0,), (2,3), (3,2), (1,2), (2,2,2); sorting-type functions with axis=None only up to 3 "
+                "elements; rank sweep: all 9 rank pairs x all kinds (sorting-type functions: <= 3 elements); all 32 rounding templates. Integer "
+                "family: every Tier-1 template except the shape x axis sweep and np.unwrap x declared {int64, uint64 (symbols >= 0)}, all integers (solver). Typed family (ENUMERATION): every template x {int8, int32, int64, uint8, uint16, uint64, "
+                "float32, float64, complex64, complex128} x 4 value sets",
 }
-OUTSIDE = ("dtype kind agreement, integer/complex payloads (object payload; C17); IEEE rounding (A1); numpy.ma; I/O functions (savetxt); "
+OUTSIDE = ("IEEE rounding (A1); integer wrap-around and the dtype WIDTH of results (only the dtype kind is compared, in the typed family); "
+           "the typed family decides nothing beyond its value table: a dtype-dependent defect that needs a value outside the table AND is not "
+           "visible to the integer family (which sees dtype reads made by unyt's own code on the operand, not e.g. np.asarray(a).dtype or "
+           "np.result_type) is missed; complex and float32 payloads are only in the typed table (no solver verdict); integer out= buffers that "
+           "reach __array_ufunc__ are re-typed to float by unyt (known finding, cf. C17) - those paths are cut in the integer family; numpy.ma; "
+           "I/O functions (savetxt); "
            "correctness of NumPy itself; functions whose NumPy implementation refuses object arrays and that unyt does not wrap (gradient, "
            "bincount, digitize, corrcoef, real/imag, unwrapped LAPACK: cholesky, qr, cond, slogdet ...), reductions with where= and no "
-           "initial=, histogram*(range=...) - all listed under not_covered* in the evidence; np.array_equal/array_equiv of quantities "
+           "initial=, histogram*(range=...) - all listed under not_covered* in the evidence (the typed family does run what is templated of "
+           "them); np.array_equal/array_equiv of quantities "
            "with different units deliberately answer False (C19); Tier 2 proves forwarding (same routine, same bound arguments), "
-           "not the kernel's numbers")
+           "not the kernel's numbers (the typed family compares the kernels' numbers on the table values)")
 CONFORM = {"quick": 40, "thorough": 120}
 
 
-def make_case(t):
+def make_case(t, env=None, case_id=None, conform=None, **casekw):
+    env = env or (lambda ctx, mode, reg=None, alias=False: Env(ctx, mode, reg, alias=alias))
+
     def h(ctx):
         reg = make_registry(ctx, t.groups, both=False)
         NQ, NB = namespaces(ctx)
-        EQ = Env(ctx, "q", reg)
+        EQ = env(ctx, "q", reg)
         rq = call(t.fn, NQ, EQ)
         if rq[0] == "raise":
             if ctx.symbolic and engine_refusal(rq[1]):
@@ -52,7 +86,7 @@ def make_case(t):
             ctx.require("unyt raises (allowed by the property)", True)
             ctx.observe("outcome", "raise:" + type(rq[1]).__name__)
             return
-        EB = Env(ctx, "bare", alias=True)
+        EB = env(ctx, "bare", alias=True)
         rb = call(t.fn, NB, EB)
         if rb[0] == "raise":
             if ctx.symbolic and engine_refusal(rb[1]):
@@ -94,17 +128,348 @@ def make_case(t):
             ctx.observe("result", numeric_obs(rq[1]))
             ctx.observe("args", [e for v in EQ.made.values() for e in numeric_obs(v)])
 
-    return Case(f"C06/{t.name}", h, bounds="symbolic: every array element and bare scalar argument", weight=t.weight,
-                max_paths=t.max_paths, budget_s=600.0, conform=t.conform, group=t.key)
+    return Case(case_id or f"C06/{t.name}", h, bounds=casekw.pop("bounds", "symbolic: every array element and bare scalar argument"), weight=t.weight,
+                max_paths=t.max_paths, budget_s=600.0, conform=(t.conform if conform is None else conform), group=t.key, **casekw)
+
+
+# ----------------------------------------------------------------------------------------------------------- integer payloads, solver-decided
+# The same differential with INTEGER-valued symbols (ctx.real(integer=True); unsigned: >= 0): z3 decides equality for ALL integers
+# (unbounded: wrap-around is outside). The payload of the symbolic run is still an object array, so that a handler which asks its
+# operand for the dtype would see "O" and take the generic branch; A12 (install_declared_dtype) makes Python-level reads of `.dtype`
+# BY UNYT CODE on a harness-made quantity answer the declared integer dtype, NumPy's own code keeps seeing the real (object) dtype.
+# Replay runs on real int64 / uint64 buffers on plain unyt, so every reported counterexample is a typed differential.
+INT_DTYPES = {"quick": ["int64"], "thorough": ["int64", "uint64"]}
+# not in the integer family (the typed family runs them on integer buffers): the thorough shape x axis sweep (orthogonal to the payload
+# type; sums of squares over 6-8 integer-constrained symbols take z3 minutes) and
+INT_SKIP = {"numpy.unwrap": "floor/mod terms over integer-constrained symbols: z3 answers unknown on the path conditions"}
+A12 = ("A12 declared dtype (integer family C06/int*): a quantity made by the harness from integer-valued symbols carries a declared integer "
+       "dtype; `.dtype` read by code of the unyt package returns it (and it is inherited by views / copies of that quantity), any other "
+       "reader and all C code see the real object dtype; element arithmetic is exact integer/real arithmetic: unsigned wrap-around, "
+       "truncating stores into integer buffers and NumPy's casting refusals are not modelled (the pinned run of this family therefore "
+       "is not compared with a typed run in the conformance step; the typed family C06/typed/* runs the same templates on real "
+       "integer buffers). Every counterexample is replayed on real int64 / uint64 buffers on plain unyt")
+ASSUMPTIONS = list(ASSUMPTIONS) + [A12]
+
+
+def install_declared_dtype(mods):
+    import sys
+    UA = mods["UA"].unyt_array
+    if "dtype" in vars(UA):
+        return
+    base = np.ndarray.dtype
+    fin = UA.__array_finalize__
+
+    def _get(self):
+        d = self.__dict__.get("_symx_declared")
+        if d is not None and str(sys._getframe(1).f_globals.get("__name__", "")).startswith("unyt"):
+            return d
+        return base.__get__(self)
+
+    def _set(self, v):
+        base.__set__(self, v)
+
+    def __array_finalize__(self, obj):
+        fin(self, obj)
+        d = getattr(obj, "__dict__", None)
+        d = d.get("_symx_declared") if d else None
+        if d is not None and base.__get__(self).kind == "O":
+            self.__dict__["_symx_declared"] = d
+
+    UA.dtype = property(_get, _set)
+    UA.__array_finalize__ = __array_finalize__
+
+
+class IntEnv(Env):
+    def __init__(self, ctx, mode, reg=None, alias=False, dtype="int64"):
+        Env.__init__(self, ctx, mode, reg, alias=alias)
+        self.dt = np.dtype(dtype)
+        if ctx.symbolic and mode != "bare":
+            install_declared_dtype(ctx.mods)
+
+    def _kw(self, kw):
+        kw = dict(kw, integer=True)
+        if self.dt.kind == "u" and kw.get("lo") is None and not kw.get("pos"):
+            kw["lo"] = 0
+        return kw
+
+    def _real(self, name, **kw):
+        return Env._real(self, name, **self._kw(kw))
+
+    def _reals(self, name, shape, **kw):
+        a = np.empty(shape, dtype=object)
+        for idx in np.ndindex(*shape):
+            a[idx] = self._real(name + "".join(f"_{i}" for i in idx), **kw)
+        return a if self.ctx.symbolic else a.astype(float).astype(self.dt)
+
+    def _wrap(self, x, group):
+        v = Env._wrap(self, x, group)
+        if self.ctx.symbolic and is_unyt(v):
+            v.__dict__["_symx_declared"] = self.dt
+        return v
+
+    def q(self, name, group="L", shape=(2,), pattern=None, **kw):
+        if pattern is not None:
+            raise core.Unsupported("integer family: a real-valued data pattern")
+        v = Env.q(self, name, group, shape, **kw)
+        if not self.ctx.symbolic:
+            # `increasing` rebuilds the payload from python numbers: keep the declared dtype
+            b = v.view(np.ndarray) if is_unyt(v) else np.asarray(v)
+            if b.dtype != self.dt:
+                v = self._wrap(b.astype(self.dt), group)
+                self.made[name] = v
+        return v
+
+    def num(self, name, group="L", **kw):
+        v = Env.num(self, name, group, **kw)
+        return v if self.ctx.symbolic else int(v)
+
+    def const(self, values, group=None):
+        vals = np.asarray(values, dtype=float)
+        if not np.all(vals == np.round(vals)):
+            raise core.Unsupported("integer family: non-integer constants")
+        if self.ctx.symbolic:
+            return Env.const(self, values, group)
+        return self._wrap(vals.astype(self.dt), group)
+
+
+def make_int_case(t, dtype):
+    c = make_case(t, env=lambda ctx, mode, reg=None, alias=False: IntEnv(ctx, mode, reg, alias=alias, dtype=dtype),
+                  case_id=f"C06/int/{dtype}/{t.name}", conform=False, allow_unsupported=True,
+                  bounds="symbolic: every array element and bare scalar argument, integer-valued (declared dtype %s)" % dtype)
+    inner = c.fn
+
+    def h(ctx):
+        try:
+            return inner(ctx)
+        except core.Unsupported:
+            # unyt's (or NumPy's) integer branch casts the payload to a float buffer, which cannot hold a term: the path is cut
+            # (counted as `unsupported`, allowed for this family; the typed family runs the same template on real integer buffers)
+            ctx.require("integer family: path cut where the integer branch needs a typed buffer (engine limit)", True)
+            raise
+
+    c.fn = h
+    return c
+
+
+# ----------------------------------------------------------------------------------------------------------- typed differential
+# The symbolic payload is an object array of reals: a handler that looks at the dtype of its operand (integers "are already round",
+# complex "has no order" ...) takes the float branch there. The typed differential runs the same template on REAL typed buffers
+# (every dtype of TYPED_DTYPES) through the real dispatch / handler code and through bare NumPy on identical buffers, and demands the
+# same structure, shape, dtype kind and bit-identical values (and the same final contents of every argument and out= buffer).
+# A typed buffer cannot hold a z3 term: the value axis of THIS family is a stated finite enumeration (VALUE_TABLE), not a solver
+# verdict; the solver-decided integer family is make_int_case below.
+TYPED_DTYPES = {"quick": ["int64", "uint16", "float32", "complex128"],
+                "thorough": ["int8", "int32", "int64", "uint8", "uint16", "uint64", "float32", "float64", "complex64", "complex128"]}
+TYPED_SETS = {"quick": 2, "thorough": 4}
+# integers with ones / tens / hundreds digits 5 (rounding ties to either side), negatives, zero, +-1, values beyond 8 and 16 bit
+VALUE_TABLE = [7, -3, 15, 25, -15, 1234, -1772, 0, 1, -1, 5, -25, 100, 55, 1250, -449, 35, 2, -8, 64, 45, -35, 9, 650, -150, 70000, 3, -6]
+
+
+def _table_value(i, dt):
+    v = VALUE_TABLE[i % len(VALUE_TABLE)]
+    if dt.kind in "iu" and dt.itemsize == 1:
+        v = (abs(v) % 40) * (-1 if v < 0 else 1)
+    elif dt.kind in "iu" and dt.itemsize == 2:
+        v = (abs(v) % 3000) * (-1 if v < 0 else 1)
+    if dt.kind == "u":
+        v = abs(v)
+    return v
+
+
+class TypedEnv:
+    """the argument factory of catalogue_common.Env over typed buffers with enumerated values"""
+
+    def __init__(self, ctx, mode, reg, dtype, vset):
+        self.ctx, self.mode, self.reg = ctx, mode, reg
+        self.dt = np.dtype(dtype)
+        self.vset = vset
+        self.made, self.group, self.outs = {}, {}, {}
+
+    def _start(self, name):
+        return sum((i + 1) * ord(c) for i, c in enumerate(name)) * 5 + 11 * self.vset
+
+    def _elem(self, i, pos=False, nonzero=False):
+        dt = self.dt
+        v = _table_value(i, dt)
+        if dt.kind in "fc":
+            v = v / 4.0  # dyadic: quarters and halves (rounding ties)
+        if pos:
+            v = abs(v) + 1
+        if nonzero and v == 0:
+            v = 3
+        if dt.kind == "c" and not pos:
+            v = complex(v, _table_value(i + 5, dt) / 4.0)
+        return v
+
+    def _array(self, name, shape, pos=False, nonzero=False, increasing=False):
+        n = int(np.prod(shape)) if shape else 1
+        s = self._start(name)
+        vals = [self._elem(s + i, pos, nonzero) for i in range(n)]
+        if increasing:
+            acc, out = (vals[0].real if isinstance(vals[0], complex) else vals[0]), []
+            for i, v in enumerate(vals):
+                if i:
+                    acc = acc + abs(v) + 1
+                out.append(acc)
+            vals = out
+        return np.array(vals, dtype=self.dt).reshape(shape)
+
+    def _wrap(self, x, group):
+        if self.mode == "bare" or group in ("bare", None):
+            return x
+        unit = "dimensionless" if group == "1" else UNITS["A"][group]
+        return self.ctx.quantity(x, unit, self.reg)
+
+    def q(self, name, group="L", shape=(2,), pos=False, nonzero=False, increasing=False, lo=None, hi=None, pattern=None):
+        if lo is not None or hi is not None:
+            raise core.Unsupported("typed differential: bounded payloads are not tabulated")
+        if pattern is not None:
+            x = (np.asarray(pattern, dtype=float) * 3).astype(self.dt)
+        else:
+            x = self._array(name, tuple(shape), pos, nonzero, increasing)
+        v = self._wrap(x, group)
+        self.made[name], self.group[name] = v, group
+        return v
+
+    def raw(self, name, shape=(2,), **kw):
+        return self.q(name, "bare", shape, **kw)
+
+    def num(self, name, group="L", pos=False, nonzero=False, **kw):
+        v = self._elem(self._start(name), pos, nonzero)
+        v = v.real if isinstance(v, complex) else v
+        return int(v) if self.dt.kind in "iu" else float(v)
+
+    def out(self, name, group, shape):
+        v = self._wrap(self._array(name, tuple(shape)), group)
+        self.made[name], self.group[name] = v, group
+        self.outs[name] = self.dt
+        return v
+
+    def const(self, values, group=None):
+        return self._wrap(np.asarray(values).astype(self.dt), group)
+
+
+def typed_registry(ctx, groups):
+    D = ctx.mods["unyt"].dimensions
+    reg = ctx.registry([])
+    for i, g in enumerate(groups):
+        if g not in ("1", "bare"):
+            ctx.add_row(reg, UNITS["A"][g], getattr(D, GROUP_DIMS[g]), 2.0 + i)
+    return reg
+
+
+def _typed_leaf(x):
+    if is_unyt(x):
+        x = x.view(np.ndarray)
+    return np.asarray(x)
+
+
+def _typed_same(a, b):
+    if a.dtype.kind in "fc" and b.dtype.kind in "fc":
+        return bool(np.array_equal(a, b, equal_nan=True))
+    return bool(np.array_equal(a, b))
+
+
+TYPED_LABELS = ("typed: the call on quantities returns where NumPy raises on the stripped data", "typed: an out= buffer keeps its dtype",
+                "typed structure", "typed shape", "typed dtype kind", "typed values", "typed arguments and out= buffers after the call")
+
+
+def typed_compare(t, rq, rb, EQ, EB, outs):
+    """-> {label: detail} of the obligations that FAIL for this run (empty: all hold)"""
+    bad = {}
+    # an out= buffer of the quantity run whose dtype is no longer the dtype it was made with: unyt re-typed the caller's buffer.
+    # Everything else about this run (result dtype, values NumPy would have truncated into the buffer) follows from that, so
+    # it is reported under this one label
+    for name, dt0 in outs.items():
+        a = _typed_leaf(EQ.made[name])
+        if a.dtype != dt0 and _typed_leaf(EB.made[name]).dtype == dt0:
+            bad[TYPED_LABELS[1]] = f"{name}: made as {dt0}, {a.dtype} after the call on quantities (NumPy: unchanged)"
+            return bad
+    fq, fb = flatten(rq), flatten(rb)
+    norm = lambda f: [(p, "a" if k in ("u", "n", "b") else k, (o if k == "t" else None)) for p, k, o in f]
+    if norm(fq) != norm(fb):
+        bad["typed structure"] = f"unyt {norm(fq)} / numpy {norm(fb)}"[:300]
+    else:
+        for (p, k, x), (_, _, y) in zip(fq, fb):
+            if k in ("u", "a", "n", "b"):
+                a, b = _typed_leaf(x), _typed_leaf(y)
+                d = f"{p}: unyt {a.dtype} {a.tolist()} / numpy {b.dtype} {b.tolist()}"[:260]
+                if a.shape != b.shape:
+                    bad.setdefault("typed shape", d)
+                elif not _typed_same(a, b):
+                    bad.setdefault("typed values", d)
+                if a.dtype.kind != b.dtype.kind:
+                    bad.setdefault("typed dtype kind", d)
+            elif k == "s" and not t.strings and x != y:
+                bad.setdefault("typed values", f"{p}: unyt {x!r} / numpy {y!r}"[:260])
+    for name, x in EQ.made.items():
+        y = EB.made.get(name)
+        a, b = _typed_leaf(x), (_typed_leaf(y) if y is not None else None)
+        if b is None or not (a.shape == b.shape and a.dtype == b.dtype and _typed_same(a, b)):
+            bad.setdefault(TYPED_LABELS[6], f"{name}: unyt {a.dtype} {a.tolist()} / numpy " + (f"{b.dtype} {b.tolist()}" if b is not None else "missing"))
+    return bad
+
+
+def make_typed_case(t, tier):
+    def h(ctx):
+        import warnings
+        reg = typed_registry(ctx, t.groups)
+        for dtype in TYPED_DTYPES[tier]:
+            failed, compared, raised = {}, 0, 0
+            for vset in range(TYPED_SETS[tier]):
+                with warnings.catch_warnings(), np.errstate(all="ignore"):
+                    warnings.simplefilter("ignore")
+                    try:
+                        EQ = TypedEnv(ctx, "q", reg, dtype, vset)
+                        rq = call(t.fn, np, EQ)
+                        if rq[0] == "raise":
+                            raised += 1
+                            continue
+                        EB = TypedEnv(ctx, "bare", None, dtype, vset)
+                        rb = call(t.fn, np, EB)
+                    except core.Unsupported:
+                        continue
+                    compared += 1
+                    if rb[0] == "raise":
+                        bad = {TYPED_LABELS[0]: f"{type(rb[1]).__name__}: {rb[1]}"[:200]}
+                        for name, dt0 in EQ.outs.items():  # ... because unyt re-typed the out= buffer NumPy refuses to write to
+                            if _typed_leaf(EQ.made[name]).dtype != dt0:
+                                bad = {TYPED_LABELS[1]: f"{name}: made as {dt0}, {_typed_leaf(EQ.made[name]).dtype} after the call on quantities; NumPy: {bad[TYPED_LABELS[0]]}"[:300]}
+                    else:
+                        bad = typed_compare(t, rq[1], rb[1], EQ, EB, EQ.outs)
+                    for label, detail in bad.items():
+                        failed.setdefault(label, f"value set {vset}: {detail}"[:300])
+            # one obligation per (label, dtype): it holds if it held for every value set of the table
+            if compared == 0:
+                ctx.require(f"typed: unyt raises for every value set (allowed by the property) or the template is not tabulated ({dtype})", True)
+                continue
+            for label in TYPED_LABELS:
+                ctx.require(f"{label} ({dtype})", label not in failed, detail=failed.get(label, ""))
+        # the table is fixed: the same buffers in the symbolic, pinned and replay runs
+
+    return Case(f"C06/typed/{t.name}", h, bounds="enumerated: dtype x value table (typed buffers; no symbols)", weight=1, max_paths=8,
+                budget_s=300.0, conform=False, group=t.key)
 
 
 def cases(tier, mods):
     check_names(mods, NAMES)
     install_numpy_patches()
-    return [make_case(t) for t in select(tier, "c06")]
+    sel = select(tier, "c06")
+    ints = [t for t in sel if t.tier == 1 and not t.name.startswith("sweep/") and t.key not in INT_SKIP]
+    return ([make_case(t) for t in sel] + [make_typed_case(t, tier) for t in sel]
+            + [make_int_case(t, dt) for dt in INT_DTYPES[tier] for t in ints])
 
 
 def coverage_extra(results, tier):
     from .catalogue_common import coverage_summary
-    out = coverage_summary(results, tier, "c06")
+    fam = lambda r: r["id"].split("/")[1] if r["id"].startswith(("C06/typed/", "C06/int/")) else "real"
+    out = coverage_summary([r for r in results if fam(r) == "real"], tier, "c06")
+    typed = [r for r in results if fam(r) == "typed"]
+    ints = [r for r in results if fam(r) == "int"]
+    out["typed_family"] = dict(cases=len(typed), dtypes=TYPED_DTYPES[tier], value_sets=TYPED_SETS[tier], value_table=VALUE_TABLE,
+                               decided_by="enumeration: ground checks on typed buffers, no solver verdict")
+    out["integer_family"] = dict(cases=len(ints), declared_dtypes=INT_DTYPES[tier], paths=sum(r["paths"] for r in ints),
+                                 paths_cut_engine_limit=sum(r["outcomes"].get("unsupported", 0) for r in ints),
+                                 cases_cut_on_every_path=sorted(r["id"] for r in ints if r["paths"] and r["outcomes"].get("unsupported", 0) == r["paths"]),
+                                 decided_by="z3, all integer values (declared dtype: A12)")
     return out
